@@ -65,7 +65,7 @@ PROPS = {
     'C10': {
         'lean': 'C10',
         'corr': [_f('comp_xfer', 'exec_corr')],
-        'oracles': [_x('C10')],
+        'oracles': [_x('C10'), _f('comp_defer', 'manager_oracle_c10')],
         'modelled': ['futures.BoundedExecutor (stage model)', 'wiring of TransferManager.__init__ (translator)'],
     },
     'C11': {
@@ -104,7 +104,7 @@ PROPS = {
     'C01': {
         'lean': 'C01',
         'explore': True,
-        'corr': [_f('comp_upload', 'corr'), _f('comp_chunk', 'corr'), _f('comp_plan', 'corr')],
+        'corr': [_f('comp_upload', 'corr'), _f('comp_chunk', 'corr'), _f('comp_plan', 'corr'), _f('comp_xfer', 'corr')],
         'oracles': [_f('comp_upload', 'oracle')],
         'modelled': ['upload.UploadFilenameInputManager / UploadSeekableInputManager / UploadNonSeekableInputManager (slicing, _read)',
                      'utils.ReadFileChunk', 'copies: CopySourceRange plan',
@@ -114,7 +114,7 @@ PROPS = {
         'lean': 'C02',
         'explore': True,
         'corr': [_f('comp_download', 'corr'), _f('comp_defer', 'corr')],
-        'oracles': [_f('comp_download', 'oracle')],
+        'oracles': [_f('comp_download', 'oracle'), _f('comp_defer', 'manager_oracle_c02')],
         'modelled': ['download.GetObjectTask._main / ImmediatelyWriteIOGetObjectTask', 'download.DownloadChunkIterator',
                      'utils.StreamReaderProgress', 'download.DeferQueue',
                      'legacy and process-pool loops: judged end to end only'],
@@ -123,7 +123,7 @@ PROPS = {
         'lean': 'C09',
         'explore': True,
         'corr': [_f('comp_chunk', 'corr'), _f('comp_download', 'corr')],
-        'oracles': [_f('comp_chunk', 'oracle')],
+        'oracles': [_f('comp_chunk', 'oracle'), _f('comp_download', 'progress_oracle')],
         'modelled': ['utils.ReadFileChunk', 'upload.AggregatedProgressCallback', 'utils.StreamReaderProgress',
                      "botocore's use of a request body (not-transferring / signing reads / seek(0) / transferring / rewinds)"],
     },
@@ -144,8 +144,8 @@ PROPS = {
     'C16': {
         'lean': 'C16',
         'corr': [_f('comp_defer', 'corr')],
-        'oracles': [_f('comp_defer', 'oracle')],
-        'modelled': ['download.DeferQueue (heap modelled as a list sorted by (offset, length))'],
+        'oracles': [_f('comp_defer', 'oracle'), _f('comp_defer', 'manager_oracle')],
+        'modelled': ['download.DownloadNonSeekableOutputManager.queue_file_io_task with 2-3 request threads: oracle under the scheduler', 'download.DeferQueue (heap modelled as a list sorted by (offset, length))'],
     },
     'C12': {
         'lean': 'C12',
